@@ -91,10 +91,10 @@ var c07BoundsReasons = map[string]struct {
 	"css/validation.PreprocessDeclarations":  {1, "PreprocessDeclarationsPrelude called with a nil prelude cannot fail (the only error returns are under prelude != nil) and its success return appends one element"},
 	"css/validation._borderRadius":           {9, "reads through the pointer `values` are each inside the branch that tested len(*values) == 1, 2 or 3 on the same pointer; pointer-to-slice loads are not value-numbered"},
 	"css/validation._expandFlexFlow":         {4, "sortedTokens ranges over {tokens, reverse(tokens)} under len(tokens) == 2; reverse returns a slice of the same length"},
-	"css/validation.checkCounterFunction":    {2, "the second argument is read only when name == counters, which the enclosing test admits with 2 or 3 arguments only: one is left after the first reslice"},
+	"css/validation.checkCounterFunction":    {2, "the second argument is read only when name == counters, which the enclosing test admits with 2 or 3 arguments only: one is left after the first reslice (decided per name and count by rule C07.R12)"},
 	"css/validation.expandBackground$1":      {9, "InitialValues.GetBackground*() are one-element literals (checked by rule C07.R1b); the second pop follows _box(nextToken) != \"\", which needs nextToken (the last element of tokens) to hold one token"},
 	"css/validation.expandGridColumnRowArea": {4, "validations is appended once per element of gridLines, whose length is tested to be >= 1 before; validations[1] is read under lines > 1 or after the append that duplicates entry 0"},
-	"css/validation.getTarget":               {2, "the separator argument is read only for target-counters, admitted with 3 or 4 arguments: two are left after the first reslice"},
+	"css/validation.getTarget":               {2, "the separator argument is read only for target-counters, admitted with 3 or 4 arguments: two are left after the first reslice (decided per name and count by rule C07.R12)"},
 	"css/validation.gridTemplateAreas":       {1, "tokens is non-empty (validator precondition, C07.R5) and every iteration either returns nil or appends a row, so gridAreas has at least one row here"},
 	"html/tree.resolveVar":                   {2, "reached only after validation.HasVar(token) returned true, which for a var() block requires a first argument (rule C07.R3 checks that dependency)"},
 	"svg.(*pathParser).addArcFromA":          {1, "called from addSeg under hasSetsOrMore(7, …) with 7-element chunks of c.points"},
@@ -424,6 +424,7 @@ func c07(c *core.Check) {
 	depthGuardRule(c, r10)
 	r11 := c.Rule("R11", "the two byte scanners (CSS tokenizer, selector parser) never read their buffer out of range: every index and slice of the buffer, every new value of the cursor (<= length) and every precondition \"cursor + k <= length\" that a callee needs is implied by the tests that dominate it, by the invariant 0 <= cursor <= length (itself proved at every store) and by the contracts of strings.Index, HasPrefix, DecodeRune and RuneLen; linear arithmetic over cursor versions, decided by elimination; sites resting on a regexp contract or on the saved position of the previous token are named", 250)
 	scannerBoundsRule(c, r11)
+	c07ArityScenarios(c)
 	r7 := c.Rule("R7", "svg.Parse cannot recurse forever on href references between definitions: inheritElement destroys the reference before following it", 1)
 	if ie := p.Lookup("svg.(*svgContext).inheritElement"); ie == nil {
 		r7.Anchor("svg.(*svgContext).inheritElement")
